@@ -1,5 +1,5 @@
 # C19 - TCP streams and IPv4 datagrams are reassembled exactly
-import os, json, copy, collections
+import os, sys, json, copy, collections
 import vlib
 from vlib import Inconclusive
 
@@ -21,6 +21,14 @@ META = dict(
           'unconstrained; role "client" is required only when the first captured packet is the SYN.'),
     technique='TLA+ spec (TcpReasm*.tla) + TLC exhaustive MC + TLC GEN/SIM histories replayed through real fq + TLC trace validation of fq reports',
 )
+
+# bin/check builds the Ctx (which empties replay/C19/) before it calls replay(): keep a copy of the file named by --replay
+_REPLAY_TEXT = None
+if '--replay' in sys.argv[:-1]:
+    try:
+        _REPLAY_TEXT = open(sys.argv[sys.argv.index('--replay') + 1]).read()
+    except OSError:
+        _REPLAY_TEXT = None
 
 KNOWN_SIGS = ('ipv4.defrag_length_coincidence', 'tcp.fsm_vetoes_segment_behind_fin', 'tcp.fsm_veto+ipv4.defrag_length_coincidence',
               'tcp.seq_wraparound_off_by_one', 'tcp.seq_wraparound_off_by_one+asbuilt')
@@ -339,7 +347,12 @@ def run(ctx):
 
 def replay(ctx, path):
     """bin/check C19 --replay <file>: re-run the recorded event on real fq and judge it again"""
-    rec = json.load(open(path))
+    if _REPLAY_TEXT is None:
+        raise Inconclusive('cannot read replay file %s' % path)
+    if not os.path.exists(path):        # put the file back where the runner removed it
+        os.makedirs(os.path.dirname(os.path.abspath(path)), exist_ok=True)
+        open(path, 'w').write(_REPLAY_TEXT)
+    rec = json.loads(_REPLAY_TEXT)
     e = rec['case']
     binp = ctx.go_build('c19')
     pin, pout = os.path.join(ctx.build, 'replay_in.ndjson'), os.path.join(ctx.build, 'replay_out.ndjson')
